@@ -13,6 +13,8 @@ LABEL_POOLS = {
     'keyword': lambda i: ['input_a', 'OUTPUT1', 'vdd2', 'buff', 'Input', 'outputx', 'INPUTS', 'not1',
                           'and', 'x y'.replace(' ', '_')][i % 10] + (str(i) if i >= 10 else ''),
     'digits': lambda i: f'{i}',
+    # the labels exact synthesis gives its own gates and inputs ('0', '1', … and 's3', 's4', …), and temporary-looking ones
+    'synth': lambda i: (['0', '1', '2', 's3', 's4', 's5', 'tmp_0', 'tmp_1', 's0', '3'][i] if i < 10 else f's{i}'),
     'punct': lambda i: ['a.b', 'q[0]', 'n-1', 'z@z', 'u1.clk', 'x[3]', 'p:q', 'r/s', 'k+1', 'w$'][i % 10] + ('' if i < 10 else f'.{i}'),
     'weird': lambda i: ['a.b', 'q[0]', 'n-1', 'é', 'z@z', 'A', 'a', '_', '__x', 'Ω1'][i % 10] + ('' if i < 10 else f'_{i}'),
 }
